@@ -564,7 +564,26 @@ pub fn ruma_resolve(r: &Room, sets: &[SMap], chains: &[BTreeSet<String>]) -> Res
     let rules = rules_for(r.version).authorization;
     let maps: Vec<StateMap<OwnedEventId>> = sets.iter().map(to_state_map).collect();
     let chain_sets: Vec<HashSet<OwnedEventId>> = chains.iter().map(|c| c.iter().map(|id| OwnedEventId::try_from(id.as_str()).expect("id")).collect()).collect();
-    let out = ruma_state_res::resolve(&rules, maps.iter(), chain_sets, |id| r.fetch(id)).map_err(|e| e.to_string())?;
+    // identical state sets are passed as one shared map (what a caller holding a single copy does)
+    // and, for comparison, as equal copies at different addresses
+    let mut refs: Vec<&StateMap<OwnedEventId>> = vec![];
+    let mut shared = false;
+    for i in 0..sets.len() {
+        match (0..i).find(|&j| sets[j] == sets[i]) {
+            Some(j) => {
+                refs.push(&maps[j]);
+                shared = true;
+            }
+            None => refs.push(&maps[i]),
+        }
+    }
+    let out = ruma_state_res::resolve(&rules, refs, chain_sets.clone(), |id| r.fetch(id)).map_err(|e| e.to_string())?;
+    if shared {
+        let copies = ruma_state_res::resolve(&rules, maps.iter(), chain_sets, |id| r.fetch(id)).map_err(|e| e.to_string())?;
+        if copies != out {
+            return Err(format!("resolve depends on whether identical state sets are one shared map or equal copies: shared gives {:?}, copies give {:?}", from_state_map(&out), from_state_map(&copies)));
+        }
+    }
     Ok(from_state_map(&out))
 }
 
